@@ -293,6 +293,9 @@ pub struct XlsxBook {
     pub raw_shared_strings: Option<String>,
     /// write the text of every defined name of two or more characters as two text nodes around a comment (C16)
     pub split_defined_names: bool,
+    /// events written as the last children of `<workbook>` (after `workbook_extra`), e.g. an `<extLst>`; unlike
+    /// `workbook_extra` they are part of `Built::workbook_events` (C16). Names are written as given (no prefixing).
+    pub workbook_tail_events: Vec<Ev>,
 }
 
 impl Default for XlsxBook {
@@ -313,6 +316,7 @@ impl XlsxBook {
             workbook_extra: String::new(),
             raw_shared_strings: None,
             split_defined_names: false,
+            workbook_tail_events: vec![],
         }
     }
 }
@@ -998,6 +1002,7 @@ impl XlsxBook {
         if !self.workbook_extra.is_empty() {
             wb.push(Ev::Other(self.workbook_extra.clone()));
         }
+        wb.extend(self.workbook_tail_events.iter().cloned());
         wb.push(end(&l.q("workbook")));
         let n = self.sheets.len();
         rels.push_str(&format!("<Relationship Id=\"rId{}\" Type=\"{}/styles\" Target=\"styles.xml\"/>", n + 1, NS_REL));
